@@ -240,6 +240,12 @@ mod clmul {
     }
 }
 
+/// Scalar carry-less multiplication, exposed for the verification hooks.
+#[cfg(feature = "__verif")]
+pub(crate) fn verif_clmul_scalar(a: u128, b: u128) -> (u128, u128) {
+    scalar::clmul128(a, b)
+}
+
 // used in tests, but if we're not compiling tests these will otherwise be
 // flagged as unused
 #[allow(dead_code)]
